@@ -189,8 +189,9 @@ def _replay_steps(trans, world, snaps, qs, problems, hist, pol):
       if not deep_equal(world[name], snaps[name]):
         problems.append(("input-mutated", "step %d %s modified caller-owned %s" % (step + 1, act, name)))
         snaps[name] = copy.deepcopy(world[name])
-    if step == len(hist) - 1 and got != trans["last"]:
-      problems.append(("outcome", "step %d %s: spec predicts %s, implementation %s" % (step + 1, act, trans["last"], got)))
+    if got != act[-1]:
+      problems.append(("outcome", "step %d %s: spec predicts %s, implementation %s" % (step + 1, act[:-1], act[-1], got)))
+      break     # the two have diverged: later steps are not comparable
   return {"problems": problems, "nq": nq, "hist": hist}
 
 
@@ -245,21 +246,31 @@ def main():
                 StatsOf="(" + " @@ ".join("%s :> %s" % (pair(k), tlc.tla_str_set(v)) for k, v in STATS_OF.items()) + ")",
                 Fixes=tlc.tla_str_set(fixes))
   r = tlc.run("C14_api", "Api", consts, invariants=["ArgsUntouched", "OutputIsFunction"], constraints=["EmitH"], view="View", workers=16, timeout=3600)
-  if r.error or r.rc not in (0, 12):
-    chk.machinery("TLC failed: %s" % r.out[-800:])
-    return chk.finish()
-  if r.violated:
-    chk.violation("design-level: %s violated in Api.tla" % r.violated, {"tlc": r.out[-3000:]})
-  trans = {}
-  for line in r.printed("HIST"):
-    try:
-      t = json.loads(json.loads(line[line.index(",") + 1:line.rindex(">>")].strip()))
-      if t["hist"]:
-        trans[json.dumps(t["hist"])] = t
-    except Exception:  # pylint: disable=broad-except
-      pass
+  # longer histories on ONE Quantizer under the default policy (a failed call in the middle, then by-the-book calls)
+  deep = dict(consts, NQ="1", Policies=tlc.tla_str_set(["P0"]), Datasets=tlc.tla_str_set(["D1"]), MaxLen=str(maxlen + 3))
+  rd = tlc.run("C14_api_deep", "Api", deep, invariants=["ArgsUntouched", "OutputIsFunction"], constraints=["EmitH"], view="View", workers=16, timeout=3600)
+  trans, trans_deep = {}, {}
+  for rr, tr in ((r, trans), (rd, trans_deep)):
+    if rr.error or rr.rc not in (0, 12):
+      chk.machinery("TLC failed: %s" % rr.out[-800:])
+      return chk.finish()
+    if rr.violated:
+      chk.violation("design-level: %s violated in Api.tla" % rr.violated, {"tlc": rr.out[-3000:]})
+    for line in rr.printed("HIST"):
+      try:
+        t = json.loads(json.loads(line[line.index(",") + 1:line.rindex(">>")].strip()))
+        if t["hist"]:
+          tr[json.dumps(t["hist"])] = t
+      except Exception:  # pylint: disable=broad-except
+        pass
   policy_files(write=True)       # written once, read by the worker processes
-  keys = common.sample_keep(sorted(trans), 700 if args.tier == "quick" else 12000, args.seed)
+  keys = common.sample_keep(sorted(trans), 500 if args.tier == "quick" else 12000, args.seed)
+  # of the long histories, those that continue after a call that raised are the ones the short ones cannot reach
+  after_fail = lambda h: any(a[-1].startswith("raise") for a in json.loads(h)[:-1])
+  deep_keys = sorted(k for k in trans_deep if k not in trans and after_fail(k))
+  keys_deep = common.sample_keep(deep_keys, 300 if args.tier == "quick" else 12000, args.seed)
+  trans.update(trans_deep)
+  keys = keys + keys_deep
   items = [(trans[k], args.seed, "bytes" if i % 3 else "bytearray") for i, k in enumerate(keys)]
   t0 = time.time()
   results = []
@@ -275,7 +286,7 @@ def main():
       chk.violation("%s: %s" % (kind, msg), {"property": "C14", "history": out["hist"], "clause": kind})
   nproc = fresh_process_check(chk, args.seed, args.tier)
   chk.cov.update({
-      "states": r.distinct, "transitions": r.generated, "traces_validated_against_impl": len(results), "transitions_emitted": len(trans),
+      "states": r.distinct + rd.distinct, "transitions": r.generated + rd.generated, "histories_continuing_after_a_raise": len(keys_deep), "traces_validated_against_impl": len(results), "transitions_emitted": len(trans),
       "quantize_calls_compared_with_fresh_quantizer": nq, "fresh_process_runs": nproc, "max_history": maxlen,
       "evaluations": len(results), "distinct_nontrivial": sum(1 for o in results if o["nq"] > 0),
       "rule": "history = sequence over {load R (3 recipes), load_config_policy (2 policies, process-global), calibrate(D, previous result), quantize(result), validate} on 2 Quantizers sharing "
